@@ -1045,6 +1045,20 @@ def cache_9_10(ctx, rep):
                        witness=norm(bad) if bad is not None else None)
     if not n_calls:
         raise AnalysisError('CACHE-10: try_to_save_module no longer reaches _save_to_file_system')
+    # the in-memory entry is replaced on every call: the caller hands in the lines / node of *this* parse (the diff parser
+    # updates the module object in place, so "same module object, same mtime" does not mean "same lines" - seed rt14-C01)
+    v = ctx.view(ts0, keep=KEEP)
+    cfg = ctx.cfg(v)
+    stores = [n for n in cfg.nodes if calls_in(n, lambda c: norm(c.func).split('.')[-1] == '_set_cache_item')
+              or (n.kind == 'stmt' and isinstance(n.ast, ast.Assign) and any('parser_cache' in norm(t) for t in n.ast.targets))]
+    if not stores:
+        raise AnalysisError('CACHE-10: try_to_save_module no longer stores the in-memory entry')
+    from ..paths import find_path as _fp, path_text as _pt
+    p = _fp(cfg, [cfg.entry], lambda n: n is cfg.exit, lambda n: n in stores)
+    rep.ob('CACHE-10', CACHE, ts0.qual, 'the in-memory entry is stored on every way through try_to_save_module', p is None,
+           'try_to_save_module can return without storing the entry it was given: the entry in memory keeps the lines of an '
+           'earlier parse while the (in place updated) module moves on; path: %s' % (' -> '.join(_pt(p)) if p else ''),
+           witness=_pt(p) if p else None)
 
 
 def cache_12(ctx, rep):
